@@ -138,7 +138,11 @@ fn cmd_replay(a: &[String]) -> i32 {
         println!("KNOWN-FINDING: property={} sig={} hits={}", prop, sig, n);
     }
     if rep.violations.is_empty() {
-        println!("replay [{}]: property {} holds on this case", flavour(), prop);
+        if rep.known_hits.is_empty() {
+            println!("replay [{}]: property {} holds on this case", flavour(), prop);
+        } else {
+            println!("replay [{}]: this case reproduces only the listed known finding(s) of {}", flavour(), prop);
+        }
         0
     } else {
         1
